@@ -595,4 +595,21 @@ namespace svmon
 
 } // namespace svmon
 
+#ifdef SVMON_UBSAN_HOOK
+// Wrap monitor (C12 "size arithmetic never wraps"): clang's unsigned-integer-overflow / implicit-conversion checks are
+// compiled into the header's functions only (harness/include/svmon/ubsan_ignorelist.txt excludes everything else); the UBSan runtime
+// calls this hook for every report, and the hook files it against the operation that is running.
+extern "C" void __ubsan_get_current_report_data (const char **kind, const char **msg, const char **file, unsigned *line, unsigned *col, char **addr);
+extern "C" void __ubsan_on_report (void)
+{
+  const char *kind = 0, *msg = 0, *file = 0; unsigned line = 0, col = 0; char *addr = 0;
+  __ubsan_get_current_report_data (&kind, &msg, &file, &line, &col, &addr);
+  if (! file || ! std::strstr (file, "small_vector.hpp")) return;
+  static char monitor[96];
+  std::snprintf (monitor, sizeof monitor, "wrap.%s", kind ? kind : "?");
+  svmon::COV ().count ("ubsan-reports-in-header");
+  svmon::violate ("C12", monitor, "%s (small_vector.hpp:%u:%u)", msg ? msg : "", line, col);
+}
+#endif
+
 #endif
